@@ -195,6 +195,36 @@ ApplyEdgePoints(s, n, p, b) ==
 Apply(s, op) ==
     IF op.kind = "np" THEN ApplyNodePoints(s, op.n, op.b) ELSE ApplyEdgePoints(s, op.n, op.p, op.b)
 
+\* ---------------------------------------------------------------- reads
+\* nodes.<parent>.<id> with options (node type filter, include deleted placements): which
+\* placements a read returns (store.handleNodesRequest -> DbSqlite.getNodes).  Every placement
+\* comes with the node's points, the edge's points and the edge's hash (C01, C03 observe through
+\* this).  parent "root" names the instance root whatever id says; "all" is a wildcard on one side
+\* only.  TypeOf(e) is the node type recorded on edge e when it was created.
+ReadRefused(parent, id) == parent \in {"", "none"} \/ (parent = "all" /\ id \in {"all", ""})
+ReadEdges(st, parent, id) ==
+    CASE parent = "root"        -> {e \in st.edges : e[2] = st.root}
+      [] parent = "all"         -> {e \in st.edges : e[2] = id}
+      [] id \in {"all", ""}     -> {e \in st.edges : e[1] = parent}
+      [] OTHER                  -> {e \in st.edges : e = <<parent, id>>}
+Read(st, parent, id, typ, incDel, TypeOf(_)) ==
+    {e \in ReadEdges(st, parent, id) : (typ = "" \/ TypeOf(e) = typ) /\ (incDel \/ ~DeletedIn(st, e))}
+\* what clients do to enumerate the tree: start at the root, list children without the deleted
+\* ones, repeat.  Declarative counterpart: the nodes connected to the root by live edges.
+RECURSIVE Walk(_, _, _)
+Walk(K, frontier, seen) ==      \* K[n]: what listing the children of n returns
+    IF frontier = {} THEN seen
+    ELSE LET kids == UNION {K[n] : n \in frontier} IN Walk(K, kids \ seen, seen \cup kids)
+WalkFromRoot(st, TypeOf(_)) ==
+    LET r == {e[2] : e \in Read(st, "root", "all", "", FALSE, TypeOf)}
+        K == [n \in NodesOf(st) |-> {e[2] : e \in Read(st, n, "all", "", FALSE, TypeOf)}]
+    IN Walk(K, r, r)
+RECURSIVE LiveBelow(_, _)
+LiveBelow(st, S) ==
+    LET more == {e[2] : e \in {x \in st.edges : x[1] \in S /\ ~DeletedIn(st, x)}} \ S
+    IN IF more = {} THEN S ELSE LiveBelow(st, S \cup more)
+LiveNodes(st) == IF DeletedIn(st, <<Sentinel, st.root>>) THEN {} ELSE LiveBelow(st, {st.root})
+
 \* a fresh store: root r below the sentinel
 InitStore(r) ==
     [npts |-> [x \in {r} |-> {}],
